@@ -134,6 +134,7 @@ class Minimize(Factory, Container):
             q = self.quantity(datum)
             if not isinstance(q, numbers.Real):
                 raise TypeError(f"function return value ({q}) must be boolean or number")
+            q = float(q)  # an integer beyond the float range raises OverflowError here, before anything is changed
 
             # no possibility of exception from here on out (for rollback)
             self.entries += weight
@@ -310,6 +311,7 @@ class Maximize(Factory, Container):
             q = self.quantity(datum)
             if not isinstance(q, numbers.Real):
                 raise TypeError(f"function return value ({q}) must be boolean or number")
+            q = float(q)  # an integer beyond the float range raises OverflowError here, before anything is changed
 
             # no possibility of exception from here on out (for rollback)
             self.entries += weight
